@@ -1,6 +1,6 @@
 (** C09 (second round) — proofs over Sys/EndBlockMods.v and the second-round source facts. *)
 From Coq Require Import String List ZArith Bool Lia.
-From Paloma Require Import Gen.C09 Sys.EndBlockMods.
+From Paloma Require Import Gen.C09 Sys.EndBlockMods Sys.EndBlock.
 Import ListNotations.
 Open Scope Z_scope.
 
@@ -148,6 +148,13 @@ Definition second_round_facts : bool :=
      deferred function (a recover() in a helper called from a deferred closure returns nil) *)
   Gen.C09.skyway_endblocker_recover_is_effective && Gen.C09.skyway_module_endblock_recover_is_effective &&
   Gen.C09.deploy_compass_recover_is_effective && Gen.C09.valset_jail_recover_is_effective && Gen.C09.recovered_sites_have_effective_recover &&
+  (* the eligibility lookup (GetRelayerFeesByChainReferenceID), the pricing lookup (GetCombinedFeesForRelay)
+     and the merge of UpsertRelayerFee identify a chain by the SAME exact string equality — Sys/EndBlock's
+     [lookup] for all three; the invariant "assigned => fee entry for the chain" lives on that *)
+  Gen.C09.treasury_fee_lookups_compare_chain_exactly && Gen.C09.treasury_upsert_merges_by_exact_chain &&
+  (* what the signature verifier checks is what is stored: the submitted bytes go to Ecrecover unchanged
+     (65 bytes or refused), BuildCompassConsensus reads byte 64 of the stored signature *)
+  Gen.C09.signature_verifier_passes_submitted_bytes && Gen.C09.compass_consensus_reads_byte_64 &&
   (* relay weights are validated (decimals in [0, 10^6]) before SetRelayWeights writes them *)
   Gen.C09.relay_weights_validated_when_set &&
   Gen.C09.version_gate_compares_semver && Gen.C09.version_gate_skips_without_upgrade && Gen.C09.version_gate_adds_v_prefix.
@@ -239,4 +246,21 @@ Example version_gate_examples :
   gate_open (Some {| sv_major := 5; sv_minor := 1; sv_patch := 6; sv_pre := [PAlpha [114; 99]; PNum 10] |})
             (Some (Some {| sv_major := 5; sv_minor := 1; sv_patch := 6; sv_pre := [PAlpha [114; 99]; PNum 9] |})) = true /\
   digits_cmp [49; 48] [54] = Lt.
+Proof. repeat split; vm_compute; reflexivity. Qed.
+
+(** * One equality for eligibility and pricing
+    Sys/EndBlock uses the same [lookup] (exact chain id) for [put_ok] (who may be assigned) and
+    [combined_fees] (what the elected estimate is priced with); the translator checks that the two
+    treasury functions do.  What happens when eligibility is more lenient than pricing (seeded change
+    C09-K: case-insensitive listing): chain ids congruent modulo 1000 stand for spellings of one chain. *)
+Definition lenient_eligible (chain v : Z) (s : state) : bool :=
+  match lookup v (st_fees s) with
+  | Some l => existsb (fun e => fst e mod 1000 =? chain mod 1000) l
+  | None => false
+  end.
+
+Example lenient_eligibility_refuted :
+  let s := {| st_fees := [(0, [(1007, 1100000000000000000)])]; st_cf := Some 10000000000000000; st_sf := Some 10000000000000000;
+              st_snapshot := Some [(0, 10)]; st_msgs := []; st_next := 1 |} in
+  lenient_eligible 7 0 s = true /\ put_ok 7 0 s = false /\ combined_fees s 0 7 = Panic SNilDec.
 Proof. repeat split; vm_compute; reflexivity. Qed.
